@@ -118,7 +118,7 @@ class World:
 
 
 ENT_VALUE_ALPHABET = ['a', 'B', '0', ' ', '"', '\\', '\n', '\t', '\r', '/', '?', ',', ';', ':', '{', '}', '\udc80', '\udcff', "'", '*']
-ENT_KEY_ALPHABET = ['a', 'B', 'z', '0', '_', ' ', '.', '$', '#', '[', '{']
+ENT_KEY_ALPHABET = ['a', 'B', 'z', '0', '_', ' ', '.', '$', '#', '[', '{', '"', '\\', '\n', '\t', '/']
 
 
 def rand_text(rng, alphabet, lo, hi):
@@ -464,8 +464,7 @@ def assign_world(bsp, w, views=None):
             continue
         if v == 'props':
             ver = StaticPropVersion[w.prop_version]
-            bsp.static_prop_version = ver
-            bsp.game_lumps[b'sprp'].version = ver.version
+            bsp.static_prop_version = ver      # the writer puts ver.version into the game lump header
         setattr(bsp, v, getattr(w, v))
 
 
